@@ -36,6 +36,7 @@ type CoreInput struct {
 	Keys       []string    `json:"keys"`
 	Vals       []string    `json:"vals"`
 	BigVal     string      `json:"big_val"` // C13: this abstract value stands for an oversize payload
+	Windows    []WindowRow `json:"windows"` // C08: rows of the TLC-evaluated window table
 }
 
 // concretiser: abstract keys / values -> concrete strings and bytes
@@ -543,6 +544,9 @@ func coreCmd(args []string) int {
 		}
 		if in.Snapshots {
 			run.snapshots()
+		}
+		if len(in.Windows) > 0 && in.Type == "log" {
+			run.windows()
 		}
 		if in.FinalSync {
 			run.finalSync()
